@@ -38,7 +38,7 @@ fn floors(t: Tier) -> Vec<(String, u64)> {
     if t == Tier::Thorough {
         extra.push(("full_sweep.words".into(), 4 * (1u64 << 32)));
     }
-    let mut f: Vec<(String, u64)> = vec![("constructor.checked".into(), 16), ("word.roundtrip".into(), 300_000), ("accessor.first.true".into(), 10_000), ("accessor.first.false".into(), 10_000), ("accessor.second.true".into(), 10_000), ("accessor.second.false".into(), 10_000), ("via_message".into(), 1000)];
+    let mut f: Vec<(String, u64)> = vec![("constructor.checked".into(), 16), ("word.roundtrip".into(), 300_000), ("accessor.first.true".into(), 10_000), ("accessor.first.false".into(), 10_000), ("accessor.second.true".into(), 10_000), ("accessor.second.false".into(), 10_000), ("via_message".into(), 1000), ("via_hide_reveal".into(), 1000)];
     f.extend(extra);
     f
 }
@@ -137,6 +137,29 @@ fn judge_word(ctx: &mut Ctx, kind: usize, w: u32, via_message: bool) {
         ctx.violate(format!("C17:{}:accessor-bit7", name), format!("the accessor of bit 7 returns {} for wire word {:#010x} (bit 7 is {})", a7, w, b7), wit.clone());
     }
     if via_message {
+        // Clone / PartialEq must carry the whole word: the clone re-encodes to the same octets
+        // and compares equal; a value with a different word compares unequal
+        let c = v.clone();
+        let same = matches!((exec::encode_avp(&c, Wk::Vec), exec::encode_avp(&v, Wk::Vec)), (exec::EncOut::Ok(a), exec::EncOut::Ok(b)) if a.bytes == b.bytes);
+        if !same || c != v {
+            ctx.violate(format!("C17:{}:clone-differs", name), format!("clone of the value decoded from {:#010x} is not the same value", w), wit.clone());
+        }
+        if let Some((_, _, _, other)) = from_wire(kind, w ^ (1 << ((w >> 3) % 32))) {
+            if other == v {
+                ctx.violate(format!("C17:{}:eq-ignores-bits", name), format!("values decoded from {:#010x} and {:#010x} compare equal", w, w ^ (1 << ((w >> 3) % 32))), wit.clone());
+            }
+        }
+        // through hide -> wire -> reveal
+        {
+            let secret = b"bitmask";
+            let rv = [9u8, 8, 7, 6];
+            if let Ok(h) = exec::hide(v.clone(), secret, rv, &[0x55; 3], &[0xaa; 16]) {
+                match exec::reveal(h, secret, rv) {
+                    exec::Out::Ok(a) if a.attr == attr && a.body == crate::spec::model::SBody::U32(w) => ctx.rep.bucket("via_hide_reveal"),
+                    other => ctx.violate(format!("C17:{}:via-hide-reveal", name), format!("word {:#010x} after hide -> reveal is {}", w, super::common::out_str(&other)), wit.clone()),
+                }
+            }
+        }
         // same through a whole control message
         let mut body = crate::gen::wire::message_type_record(1);
         body.extend_from_slice(&crate::gen::wire::raw_record(attr, false, 0, &w.to_be_bytes(), true));
